@@ -145,6 +145,10 @@ func (p c20) Run(c *fw.Case) {
 	}
 	c20Cold.Do(func() { p.coldStart(c) })
 	r := c.R
+	if c.Idx%400 == 123 {
+		p.deepChain(c)
+		return
+	}
 	populated := map[string]bool{}
 	o := &gen.StructOpts{Valid: true, MaxDepth: 4, NoRefs: true, FillAll: true, Populated: populated, PropOrder: c.Idx%3 == 0}
 	s := gen.SchemaStruct(r, o)
@@ -294,4 +298,72 @@ func appendAll(s *jsonschema.Schema, seen map[*jsonschema.Schema]bool) {
 			}
 		}
 	}
+}
+
+// deepChain: a tree that is one long chain (depths around the nesting limits other packages have: 1000, 10000, ...), built in
+// Go. It is a tree like any other: the clone is a disjoint chain of the same length.
+func (c20) deepChain(c *fw.Case) {
+	r := c.R
+	depth := gen.Pick(r, []int{999, 1000, 1001, 4096, 9999, 10000, 10001, 10002, 12000, 20000})
+	root := &jsonschema.Schema{Title: "level 0"}
+	cur := root
+	for i := 1; i <= depth; i++ {
+		next := &jsonschema.Schema{Title: fmt.Sprintf("level %d", i)}
+		switch r.IntN(5) {
+		case 0:
+			cur.Not = next
+		case 1:
+			cur.Items = next
+		case 2:
+			cur.AllOf = []*jsonschema.Schema{next}
+		case 3:
+			cur.Properties = map[string]*jsonschema.Schema{"k": next}
+		default:
+			cur.AdditionalProperties = next
+		}
+		cur = next
+	}
+	step := func(s *jsonschema.Schema) *jsonschema.Schema {
+		switch {
+		case s.Not != nil:
+			return s.Not
+		case s.Items != nil:
+			return s.Items
+		case len(s.AllOf) > 0:
+			return s.AllOf[0]
+		case s.Properties != nil:
+			return s.Properties["k"]
+		}
+		return s.AdditionalProperties
+	}
+	var clone *jsonschema.Schema
+	if !c.CallChecked("CloneSchemas", map[string]any{"chain_depth": depth}, func() { clone = root.CloneSchemas() }) {
+		return
+	}
+	c.Eval(1)
+	orig := map[*jsonschema.Schema]bool{}
+	for s := root; s != nil; s = step(s) {
+		orig[s] = true
+	}
+	n := 0
+	for s, o := clone, root; ; s, o = step(s), step(o) {
+		if s == nil || o == nil {
+			if s != nil || o != nil {
+				c.Violation(fmt.Sprintf("the clone of a chain of depth %d ends at level %d", depth, n), map[string]any{"chain_depth": depth})
+				return
+			}
+			break
+		}
+		if orig[s] {
+			c.Violation(fmt.Sprintf("the clone of a chain of depth %d shares the Schema object at level %d with the original", depth, n), map[string]any{"chain_depth": depth, "level": n, "title": s.Title})
+			return
+		}
+		if s.Title != o.Title {
+			c.Violation(fmt.Sprintf("the clone of a chain of depth %d differs at level %d", depth, n), map[string]any{"chain_depth": depth, "level": n})
+			return
+		}
+		n++
+	}
+	c.Count("deep_chain_clones", 1)
+	c.Nontrivial(fmt.Sprintf("deep-chain|%d", depth))
 }
